@@ -40,9 +40,9 @@ INCS = [0, 1, 2, 3, 0xFF, 0x100, 0x7FFF, 0x8000, 0x8001, 0xFFFF, 0x10000, 0x1000
 
 def bound(tier):
     return ("all 2^24 addresses x 3 built-in ROM types; advance from every in-window ROM address x 12 increments; "
-            "432 .map configurations x 3 construction routes (API, source, source with decimal/binary/upper-case numbers)" if tier == "thorough" else
+            "432 .map configurations x 3 construction routes (API, source, source with decimal/binary/upper-case numbers; every third one also inside the taken branch of an .if next to another layout in the branch not taken)" if tier == "thorough" else
             "boundary address set of every bank x 3 built-in ROM types; advance x 12 increments + 144 (m,n) pairs; "
-            "432 .map configurations x 3 construction routes (API, source, source with decimal/binary/upper-case numbers)")
+            "432 .map configurations x 3 construction routes (API, source, source with decimal/binary/upper-case numbers; every third one also inside the taken branch of an .if next to another layout in the branch not taken)")
 
 
 # ---- configuration lattice -------------------------------------------------------------
@@ -94,8 +94,15 @@ def build_real_api(decls):
     return b
 
 
+OTHER_LAYOUT = ".map identifier=9 bank_range=0x00, 0xff addr_range=0x0000, 0xffff mask=0x10000\n"
+
+
 def build_real_source(decls, style="hex"):
-    src = "\n".join(refbus.map_line(*d, style=style) for d in decls) + "\n"
+    src = "\n".join(refbus.map_line(*d, style="hex" if style == "guarded" else style) for d in decls) + "\n"
+    if style == "guarded":
+        # the declarations stand in the TAKEN branch of a conditional; the branch not taken and a macro that is never applied
+        # declare another layout, which must have no effect
+        src = ".macro never() {\n" + OTHER_LAYOUT + "}\nsel := 0\n.if sel {\n" + OTHER_LAYOUT + "} else {\n" + src + "}\n"
     out = impl.assemble(src, keep_program=True)
     if not out.accepted:
         return None, src, out
@@ -123,6 +130,8 @@ def cases(tier, seed):
         yield ("cfg", i, "source")
         # the same declarations with the numbers spelled in decimal / binary / upper-case hex / mixed (one style per configuration)
         yield ("cfg", i, "source:" + ("dec", "bin", "HEX", "mixed")[i % 4])
+        if i % 3 == 0:
+            yield ("cfg", i, "source:guarded")
 
 
 def describe(case, res):
